@@ -31,8 +31,10 @@ MCNext ==
        \/ \E upto \in (committed + 1)..InmemPre : Committed(upto, AlhAt(upto))
        \/ \E since \in (committed + 1)..InmemPre : Discard(since, InmemPre + 1 - since)
        \/ \E upto \in 0..InmemPre : Allow(upto)
-       \/ \E id \in 1..committed : Ack(id, hist[id], hist[id])
-       \/ \E id \in 1..committed : Observed(id, hist[id], TRUE, hist[id], "ReadTx")
+       \/ \E id \in 1..committed : Ack(id, hist[id], id)
+       \/ \E id \in 1..committed : Observed(id, hist[id], TRUE, id, "ReadTx")
+       \/ \E id \in 1..committed : id < cut /\ Observed(id, hist[id], TRUE, Unavailable, "ReadTx")
+       \/ \E n \in 1..committed : Truncated(n)
        \/ Close
        \/ Opened(committed, [k \in 1..(InmemPre - committed) |-> [alh |-> log[committed + k].alh, prev |-> log[committed + k].prev, bl |-> log[committed + k].bl]]))
 
@@ -40,5 +42,5 @@ MCSpec == MCInit /\ [][MCNext]_mcvars
 MCAppendOnly == [][Len(hist') >= Len(hist) /\ SubSeq(hist', 1, Len(hist)) = hist]_mcvars
 \* acknowledged (synced) commits are durable: commit-log entries fsynced, tx record and values durable
 AckedDurable == synced => \A id \in acked : id <= cdurable \/ ~open
-MCView == <<synced, extAllow, log, committed, allowed, cflushed, cdurable, hist, open, gen>>
+MCView == <<synced, extAllow, log, committed, allowed, cflushed, cdurable, hist, open, gen, cut>>
 =============================================================================
